@@ -435,9 +435,12 @@ Definition lim_ok_b (p : aparam) (a : asup) : bool :=
 
 Definition has_param (P : list aparam) (d : denom) : bool := match get_param P d with Some _ => true | None => false end.
 
-Definition compat_b (s : state) (P' : list aparam) : bool :=
+Definition same_denoms_b (s : state) (P' : list aparam) : bool :=
   forallb (fun p => has_param P' (ap_denom p)) (st_params s)
-  && forallb (fun p' => has_param (st_params s) (ap_denom p')) P'
+  && forallb (fun p' => has_param (st_params s) (ap_denom p')) P'.
+
+Definition compat_b (s : state) (P' : list aparam) : bool :=
+  same_denoms_b s P'
   && forallb (fun p' => match get (ap_denom p') (st_assets s) with
                         | Some a => lim_ok_b p' a && (negb (ap_tl p') || (as_tlc a =? sup_of (st_win s) (ap_denom p')))
                         | None => true
